@@ -117,7 +117,23 @@ type bootObs struct {
 	Qtype uint16 `json:"qtype"`
 }
 
+// connObs is what the harness saw on ONE incoming connection. RemotePort is the
+// client's source port: the oracle judges a connection only if that port belongs
+// to a socket the trace attributes to this very case.
+type connObs struct {
+	Proto        string    `json:"proto"` // tcp | quic
+	RemotePort   int       `json:"remote_port"`
+	Via          string    `json:"via"` // direct | socks5
+	HelloSeen    bool      `json:"hello_seen,omitempty"`
+	SNI          string    `json:"sni,omitempty"`
+	HandshakeOK  bool      `json:"handshake_ok,omitempty"`
+	HandshakeErr string    `json:"handshake_err,omitempty"`
+	HTTP         []httpObs `json:"http,omitempty"`
+}
+
 type Obs struct {
+	Conns []*connObs `json:"connections,omitempty"`
+
 	UDPDatagrams  int        `json:"udp_datagrams,omitempty"`
 	TCPAccepts    int        `json:"tcp_accepts,omitempty"`
 	LocalAddrs    []string   `json:"local_addrs,omitempty"` // local address of accepted connections / bound sockets hit
@@ -161,6 +177,49 @@ func (cr *caseRes) note(f func(o *Obs)) {
 	cr.mu.Lock()
 	f(&cr.obs)
 	cr.mu.Unlock()
+}
+
+func addrPort(a net.Addr) int {
+	switch x := a.(type) {
+	case *net.TCPAddr:
+		return x.Port
+	case *net.UDPAddr:
+		return x.Port
+	case nil:
+		return 0
+	}
+	if ap, err := netip.ParseAddrPort(a.String()); err == nil {
+		return int(ap.Port())
+	}
+	return 0
+}
+
+// connOf returns the record of the connection (proto, remote port), creating it.
+func (cr *caseRes) connOf(proto string, port int, via string) *connObs {
+	cr.mu.Lock()
+	defer cr.mu.Unlock()
+	for i := len(cr.obs.Conns) - 1; i >= 0; i-- {
+		if co := cr.obs.Conns[i]; co.Proto == proto && co.RemotePort == port && co.Via == via {
+			return co
+		}
+	}
+	co := &connObs{Proto: proto, RemotePort: port, Via: via}
+	if len(cr.obs.Conns) < 4096 {
+		cr.obs.Conns = append(cr.obs.Conns, co)
+	}
+	return co
+}
+
+// newConn always starts a fresh record (a new TCP connection, even if the
+// kernel reused the source port of an earlier one).
+func (cr *caseRes) newConn(proto string, port int, via string) *connObs {
+	co := &connObs{Proto: proto, RemotePort: port, Via: via}
+	cr.mu.Lock()
+	if len(cr.obs.Conns) < 4096 {
+		cr.obs.Conns = append(cr.obs.Conns, co)
+	}
+	cr.mu.Unlock()
+	return co
 }
 
 func (cr *caseRes) track(c net.Conn) bool {
@@ -370,14 +429,15 @@ func (cr *caseRes) listenTCP(la netip.AddrPort) error {
 					o.LocalAddrs = append(o.LocalAddrs, "tcp:"+c.LocalAddr().String())
 				}
 			})
-			cr.goHandle(c, func(c net.Conn) { cr.serveTCPConn(c, "tcp") })
+			co := cr.newConn("tcp", addrPort(c.RemoteAddr()), "direct")
+			cr.goHandle(c, func(c net.Conn) { cr.serveTCPConn(c, co) })
 		}
 	}()
 	return nil
 }
 
 // serveTCPConn plays the configured scheme on an accepted (or proxied) stream.
-func (cr *caseRes) serveTCPConn(c net.Conn, via string) {
+func (cr *caseRes) serveTCPConn(c net.Conn, co *connObs) {
 	switch cr.c.Scheme {
 	case "", "udp", "tcp", "tcp+pipeline":
 		cr.serveStreamDNS(c)
@@ -390,7 +450,10 @@ func (cr *caseRes) serveTCPConn(c net.Conn, via string) {
 			cfg.NextProtos = []string{"h2", "http/1.1"}
 		}
 		cfg.GetConfigForClient = func(h *tls.ClientHelloInfo) (*tls.Config, error) {
-			cr.note(func(o *Obs) { o.TLSHellos = append(o.TLSHellos, h.ServerName) })
+			cr.note(func(o *Obs) {
+				o.TLSHellos = append(o.TLSHellos, h.ServerName)
+				co.HelloSeen, co.SNI = true, h.ServerName
+			})
 			return nil, nil
 		}
 		tc := tls.Server(c, cfg)
@@ -398,10 +461,13 @@ func (cr *caseRes) serveTCPConn(c net.Conn, via string) {
 		err := tc.HandshakeContext(ctx)
 		cancel()
 		if err != nil {
-			cr.note(func(o *Obs) { o.HandshakeErrs = append(o.HandshakeErrs, err.Error()) })
+			cr.note(func(o *Obs) {
+				o.HandshakeErrs = append(o.HandshakeErrs, err.Error())
+				co.HandshakeErr = err.Error()
+			})
 			return
 		}
-		cr.note(func(o *Obs) { o.HandshakesOK++ })
+		cr.note(func(o *Obs) { o.HandshakesOK++; co.HandshakeOK = true })
 		if cr.c.Scheme == "https" {
 			// hand the established TLS connection to the HTTP server and wait
 			// until it is done with it
@@ -428,7 +494,26 @@ func (cr *caseRes) httpHandler(via string) http.Handler {
 		if r.TLS != nil {
 			ho.SNI = r.TLS.ServerName
 		}
-		cr.note(func(o *Obs) { o.HTTP = append(o.HTTP, ho) })
+		proto, cvia := "tcp", "direct"
+		if via == "quic" {
+			proto = "quic"
+		} else if cr.c.Via == "socks5" {
+			cvia = "socks5"
+		}
+		port := 0
+		if ap, err := netip.ParseAddrPort(r.RemoteAddr); err == nil {
+			port = int(ap.Port())
+		}
+		co := cr.connOf(proto, port, cvia)
+		cr.note(func(o *Obs) {
+			o.HTTP = append(o.HTTP, ho)
+			if len(co.HTTP) < 8 {
+				co.HTTP = append(co.HTTP, ho)
+			}
+			if via == "quic" {
+				co.HandshakeOK = true
+			}
+		})
 		var q []byte
 		if r.Method == http.MethodPost {
 			q, _ = io.ReadAll(io.LimitReader(r.Body, 65535))
@@ -451,7 +536,15 @@ func (cr *caseRes) quicTLS(alpn ...string) *tls.Config {
 	cfg.NextProtos = alpn
 	cfg.MinVersion = tls.VersionTLS13
 	cfg.GetConfigForClient = func(h *tls.ClientHelloInfo) (*tls.Config, error) {
-		cr.note(func(o *Obs) { o.QUICHellos = append(o.QUICHellos, h.ServerName) })
+		port := 0
+		if h.Conn != nil {
+			port = addrPort(h.Conn.RemoteAddr())
+		}
+		co := cr.connOf("quic", port, "direct")
+		cr.note(func(o *Obs) {
+			o.QUICHellos = append(o.QUICHellos, h.ServerName)
+			co.HelloSeen, co.SNI = true, h.ServerName
+		})
 		return nil, nil
 	}
 	return cfg
@@ -479,7 +572,9 @@ func (cr *caseRes) listenDoQ(la netip.AddrPort) error {
 			if err != nil {
 				return
 			}
+			qco := cr.connOf("quic", addrPort(conn.RemoteAddr()), "direct")
 			cr.note(func(o *Obs) {
+				qco.HandshakeOK = true
 				o.QUICConns++
 				o.HandshakesOK++
 				if len(o.LocalAddrs) < 4 {
@@ -614,7 +709,7 @@ func (cr *caseRes) serveSocks(c net.Conn) {
 	if _, err := c.Write([]byte{5, 0, 0, 1, 0, 0, 0, 0, 0, 0}); err != nil {
 		return
 	}
-	cr.serveTCPConn(c, "socks5")
+	cr.serveTCPConn(c, cr.newConn("tcp", addrPort(c.RemoteAddr()), "socks5"))
 }
 
 // ---------------------------------------------------------------------------
